@@ -94,7 +94,7 @@ def _registry(draw) -> dict:
 
 
 def strategy(tier: str):
-    ops = st.lists(_line_strategy().map(lambda line: ["rx", line]), min_size=1, max_size=25)
+    ops = st.lists(_line_strategy().map(lambda line: ["rx", line]), min_size=5, max_size=25)
     return st.fixed_dictionaries(
         {
             "version": gen.versions,
